@@ -216,4 +216,20 @@ PROPS = {
                      'byte 0x80 that the grammar admits -- harmless: no database unit contains it (C15 lemma).'),
         technique='contract-based deductive verification: Verus per-letter postconditions on the real body + Kani complete byte-class harnesses',
     ),
+    'C10': dict(
+        title='Encoders never panic on any constructible value',
+        verus=[('u_enc', [r'::to_zinc$', r'^write_str$', r'^write_quoted_str$', r'^Error::<From<std::io::Error>>::from$'])],
+        kani=[dict(harness='k_json_number_exact', klass='complete', schema=['f64'], family='json-number', target='<Number as Serialize>::serialize (panic-free over all f64)'),
+              dict(harness='k_zinc_keywords', klass='complete', schema=['u8'], family=None, target='to_zinc of Marker/Remove/Na/Bool')],
+        witness='enum:zinc-encode-panics',
+        design_ref='DESIGN.md section 4, C10',
+        level_text=('Proof (Verus, unbounded, no precondition on the value): the scalar Zinc writers -- Marker, Remove, NA, Bool, Number, '
+                    'Date, Time, DateTime, Str, Ref, Symbol, XStr, Coord, and the shared quoted-string writer -- return Ok and cannot panic '
+                    'for any field values (every String ranges over all strings incl. empty and non-ASCII); string slicing, where it occurs, '
+                    'carries std\'s panic condition as a precondition (rule R13). Kani: Number::serialize (Hayson) is panic-free over all f64.'),
+        not_decided=('Uri::to_zinc (its `continue` inside `for` is outside this Verus; trusted: it only writes to a Vec); the collection writers '
+                     '(List, Dict, Grid, Column, write_dict_tags: enumerate() loops; their only partial operation is len()-1 under i < len, '
+                     'evaluated inside a non-empty iteration -- an argument, not a proof); Display/to_string wrappers; serde Serialize impls '
+                     'other than Number; core::fmt itself (assumed not to fail or panic for the literals used); recursion depth.'),
+    ),
 }
